@@ -7,7 +7,7 @@ def seq_mutations(rng, ids, all_ids):
     """Seeded single edits of an instruction-id sequence.  Returns (new list, operator name)."""
     ids = list(ids)
     n = len(ids)
-    ops = ["swap_adjacent", "substitute", "delete", "duplicate", "dupswap_index", "insert_foreign", "permute", "drop_pop"]
+    ops = ["swap_adjacent", "substitute", "substitute_similar", "delete", "duplicate", "dupswap_index", "insert_foreign", "permute", "drop_pop"]
     op = rng.choice(ops)
     if n == 0:
         op = "insert_foreign"
@@ -18,6 +18,17 @@ def seq_mutations(rng, ids, all_ids):
         i = rng.randrange(n)
         pool = [x for x in all_ids if x != ids[i]] or ["POP"]
         ids[i] = rng.choice(pool)
+    elif op == "substitute_similar" and n >= 1:
+        # replace an id by another id of the same family (another PUSH-like id, another store, the signed twin ...):
+        # the substitutions a checker is most likely to conflate
+        fam = lambda x: "PUSH" if x.startswith("PUSH") else re.sub(r"[0-9_]+$", "", x)[-5:]
+        idx = [i for i, x in enumerate(ids) if any(y != x and fam(y) == fam(x) for y in all_ids)]
+        if idx:
+            i = rng.choice(idx)
+            ids[i] = rng.choice([y for y in all_ids if y != ids[i] and fam(y) == fam(ids[i])])
+        else:
+            i = rng.randrange(n)
+            ids[i] = rng.choice([x for x in all_ids if x != ids[i]] or ["POP"])
     elif op == "delete" and n >= 1:
         del ids[rng.randrange(n)]
     elif op == "duplicate" and n >= 1:
